@@ -13,6 +13,14 @@ def case_fuzz(rng, s):
 
 
 def num(rng, lo, hi, decimals=None, pct=False):
+    if decimals is None and rng.random() < 0.07:
+        # a hair away from a landmark (0, the ends of the range, whole turns of the hue circle), written in plain decimal
+        # notation however small the offset: "0.00001", "-0.00000000000000001", "359.99999999999999", "99.999999%"
+        from decimal import Decimal
+        marks = [Decimal(0), Decimal(lo), Decimal(hi)] + ([Decimal(m) for m in (-720, -360, 360, 720)] if lo < -360 else [])
+        v = rng.choice(marks) + rng.choice([1, -1]) * Decimal(10) ** -rng.choice([4, 5, 6, 9, 14, 17, 20])
+        v = min(max(v, Decimal(lo)), Decimal(hi))
+        return format(v, "f") + ("%" if pct else "")
     d = rng.choice([0, 0, 1, 2, 3, 6]) if decimals is None else decimals
     v = rng.uniform(lo, hi)
     s = ("%." + str(d) + "f") % v
